@@ -22,6 +22,8 @@ inductive ArgKind
   | base64     -- `RouterKeyInfo` / `base64::Slurm` output
   | date       -- `format_iso_date(..)`
   | lit        -- a string literal argument
+  | uri        -- `uri::Rsync` (URI characters only)
+  | word       -- a `&str` parameter all of whose call sites pass a literal word
   | elems      -- (model only) the comma-separated elements of an array
   | raw        -- anything else: written as it is
   deriving DecidableEq, Repr
@@ -53,6 +55,8 @@ def holeKindOf : ArgKind → HoleKind
   | .base64 => .chars
   | .date => .chars
   | .lit => .chars
+  | .uri => .chars
+  | .word => .chars
   | .nat => .nat
   | .int => .num
   | .elems => .elems
